@@ -34,7 +34,7 @@ def remove_parenthesis_between_union(token: Parenthesis) -> Parenthesis:
     offsets = [-1]
     while True:
         offset, _ = token.token_next_by(
-            m=[(Keyword, "UNION ALL"), (Keyword, "UNION")], idx=offsets[-1]
+            m=[(Keyword, r"^UNION(\s+ALL)?$", True)], idx=offsets[-1]
         )
         if offset is not None:
             offsets.append(offset)
